@@ -59,6 +59,7 @@ class Unit:
         self.pinned = {}        # exact source text of a statement -> Coq text ending in `in ` / `; ` placed before the continuation
         self.oracles = {}       # exact source text of an expression -> (coq text, type): values the model takes as inputs
         self.externals = {}     # self.<method> calls that are Section variables: name -> Fn (kind "pure": no self threading)
+        self.expr_hooks = {}    # exact source text of an expression -> fn(tr) -> (binds, value text, type): monadic model primitives
 
 
 class Tr:
@@ -179,6 +180,8 @@ class Tr:
         src = ast.unparse(e)
         if src in self.u.oracles:
             return [], self.u.oracles[src][0], self.u.oracles[src][1]
+        if src in self.u.expr_hooks:
+            return self.u.expr_hooks[src](self)
         if isinstance(e, ast.Attribute) and src.startswith("self.") and src[5:] in self.u.fields and "." in src[5:]:
             f, ty = self.u.fields[src[5:]]
             return [], "(%s self)" % f, ty
@@ -820,9 +823,16 @@ def translate_function(unit, fn, sig, name=None):
     if len(ps) != len(sig.params):
         raise Abort("%s: %d parameters, %d declared" % (fn.name, len(ps), len(sig.params)))
     tr = Tr(unit, clocked=sig.clocked, is_method=is_method, ret=sig.ret, truth_only=sig.truth_only, fueled=sig.fueled)
-    env = {p: (p, t) for p, t in zip(ps, sig.params)}
+    # a parameter whose name is also a Coq type used in the signature (pos : ... ) : res (... * pos) would capture the type: rename it
+    import re as _re
+    retwords = set(_re.findall(r"\w+", (coqty(sig.ret) if sig.ret != "none" else "") + (" " + unit.self_ty if is_method and unit.self_ty else "")))
+    cn = {}
+    for i, (p, t) in enumerate(zip(ps, sig.params)):
+        later = {w for t2 in sig.params[i + 1:] for w in _re.findall(r"\w+", coqty(t2))}
+        cn[p] = p + "_a" if (p in retwords or p in later) else p
+    env = {p: (cn[p], t) for p, t in zip(ps, sig.params)}
     body = tr.block(fn.body, env)
-    args = " ".join("(%s : %s)" % (p, coqty(t)) for p, t in zip(ps, sig.params))
+    args = " ".join("(%s : %s)" % (cn[p], coqty(t)) for p, t in zip(ps, sig.params))
     if is_method:
         rty = unit.self_ty if sig.ret == "none" else "(%s * %s)" % (unit.self_ty, coqty(sig.ret))
         head = "(self : %s) %s" % (unit.self_ty, args)
